@@ -26,7 +26,7 @@ uint8_t nondet_u8(void); uint32_t nondet_u32(void); uint64_t nondet_u64(void); i
 #endif
 #define HARNESS(name) void name(void)
 #define OUT_U64(tag, i, v) ((void)0)
-#define ARRAY_EQUAL(a, b) __CPROVER_array_equal(a, b)
+#define ALL_EQUAL_U32(a, b, n) __CPROVER_forall { unsigned kh_i; (kh_i < (unsigned)(n)) ==> ((a)[kh_i] == (b)[kh_i]) }
 #else
 #include <stdio.h>
 uint64_t kh_input(const char* name, unsigned i);
@@ -38,7 +38,7 @@ extern int kh_failures;
 #define CHECK(c, msg) do { if (!(c)) { printf("CHECK-FAIL %s\n", msg); kh_failures++; } } while (0)
 #define WITNESS_POINT() ((void)0)
 #define HARNESS(name) void name(void)
-#define ARRAY_EQUAL(a, b) (sizeof(a) == sizeof(b) && memcmp(a, b, sizeof(a)) == 0)
+#define ALL_EQUAL_U32(a, b, n) (memcmp(a, b, 4 * (n)) == 0)
 #define OUT_U64(tag, i, v) printf("OUT %s %u %llu\n", tag, (unsigned)(i), (unsigned long long)(v))
 #endif
 #endif
